@@ -76,6 +76,12 @@ def run(ck):
         for j, v in enumerate([rng.scalar(), (1 << min(2 * p, 254)) % R]):
             add(f"rp{p}_{j}", ["w " + hx(v), f"rpairs {p} $0", "snap"], ("pairs", p, v))
             ck.count(("pairs", p, v), kind="component_range (deprecated)")
+    # the pinned constants ZERO and ONE (witness indices 0, 1) as operands: same gates as for any other witness
+    for w_ in ([0, 1, 2, 3, 8, 9, 64, 254, 255, 256] if quick else range(0, 257)):
+        for ci, cv in ((0, 0), (1, 1)):
+            add(f"rc{w_}_{ci}", [f"rbits {w_} {ci}", "snap"], ("bits", w_, cv))
+            if w_ % 2 == 0 and w_ <= 256: add(f"rcp{w_}_{ci}", [f"rpairs {w_ // 2} {ci}", "snap"], ("pairs", w_ // 2, cv))
+            ck.count(("const-operand", w_, ci), kind="constant witness as operand")
     # several range checks on ONE witness in one composer (any mix of widths and entry points): every check
     # must emit its gates whatever was checked before; the narrowest width decides satisfiability
     for j, (ops, vs) in enumerate([(["rbits 256", "rbits 8"], [5, 1 << 8, R - 1]), (["rbits 255", "rbits 8"], [5, 1 << 8]), (["rbits 64", "rbits 8"], [5, 1 << 8, 1 << 63]),
